@@ -823,7 +823,7 @@ def job_scale(j):
                 col.violation(pid, "large_dag_returned_wrong_value", dict(shape=kind, nodes=n, got=short(res[1], 200)), rp)
         if kind == "chain" and n >= 500:
             # executor selections deep inside the chain: exactly the documented closure runs (no traversal gives up half way)
-            mid = rng.randint(n // 3, n - 50)
+            mid = rng.randint(40, n - 50)
             for kw_, exp_ in (({"target_nodes": [ids[mid]]}, set(range(mid + 1))), ({"exclude_nodes": [ids[mid]]}, set(range(mid))),
                               ({"target_nodes": [ids[n - 1]], "exclude_nodes": [ids[n - 2]]}, None)):
                 B.reset_log()
